@@ -815,3 +815,31 @@ let () = register "c07" (fun line ->
     | _ -> ())
     (Str.split (Str.regexp_string " ; ") tl);
   S.concat " ; " (L.rev !outs) ^ " || refresh-after-redirect=ok")
+
+(* ---------------- C20: statistics ---------------- *)
+let int_of_z (z : coq_Z) : int = match z with Z0 -> 0 | Zpos p -> int_of_pos p | Zneg p -> - (int_of_pos p)
+
+let () = register "c20" (fun line ->
+  let toks = L.filter (fun x -> x <> "") (S.split_on_char ' ' line) in
+  match toks with
+  | [] -> ""
+  | l :: evs ->
+    let lim = int_of_string (S.sub l 1 (S.length l - 1)) in
+    let events = L.concat_map (fun t ->
+      match t with
+      | "a" | "r" -> [Stats.SvConnect]
+      | "x" -> [Stats.SvFinish]
+      | "S" -> [Stats.SvStop]
+      | _ ->
+        (match S.split_on_char ':' t with
+         | ["q"; name; res] ->
+           let c = if name = "-" then None else Some (coq_of_string name) in
+           [Stats.SvReqStart c; Stats.SvReqDone (c, res = "s")]
+         | _ -> failwith ("bad c20 event " ^ t))) evs in
+    let s = Stats.srun (z_of_int lim) events in
+    let i f = int_of_z f in
+    let cmds = L.sort compare (L.map (fun (n, c) ->
+      Printf.sprintf "%s=%d/%d/%d" (string_of_coq n) (i c.Stats.c_total) (i c.Stats.c_success) (i c.Stats.c_error)) s.Stats.cmds) in
+    Printf.sprintf "cx_total=%d cx_destroy=%d cx_active=%d cx_restricted=%d rq_total=%d rq_success=%d rq_failure=%d ||%s || upstream_conserved=1"
+      (i s.Stats.cx_total) (i s.Stats.cx_destroy) (i s.Stats.cx_active) (i s.Stats.cx_restricted) (i s.Stats.rq_total) (i s.Stats.rq_success) (i s.Stats.rq_failure)
+      (if cmds = [] then " -" else S.concat "" (L.map (fun c -> " " ^ c) cmds)))
